@@ -393,6 +393,10 @@ func (e EvmEngine) genC10(r *Run) Step {
 			return blk(pc(v, "staking", "approveShares", val(), sp, FX(int64(1+r.Rng.IntN(300))).String()))
 		case 3:
 			ch := st.Chains[0]
+			if r.Pct(50) {
+				// FX withdrawals: their fee can be topped up by anybody holding FX
+				return blk(Tx{K: "send_to_external", S: v, A: A("chain", ch.Name, "denom", "FX", "amount", 10_000+r.Rng.IntN(50_000), "fee", 100+r.Rng.IntN(900), "dest", ExtAddrStr(ch.Name, w.Key("extuser", 3).Hex()))})
+			}
 			return blk(Tx{K: "send_to_external", S: v, A: A("chain", ch.Name, "denom", "usdt", "amount", 100+r.Rng.IntN(500), "fee", 1+r.Rng.IntN(9), "dest", ExtAddrStr(ch.Name, w.Key("extuser", 3).Hex()))})
 		default:
 			if m.phase == 9 {
@@ -472,6 +476,9 @@ func (e EvmEngine) genC10(r *Run) Step {
 						// the fee of somebody else's transfer may be topped up by anybody (Cosmos message, paid in the bridge
 						// denomination, which the attacker first obtains from its coins): the transfer stays its owner's
 						ch := st.Chains[0]
+						if p.Token.Contract == ExtAddrStr(ch.Name, tokenContract(ch.Name, "FX")) {
+							return blk(Tx{K: "increase_fee", S: att, A: A("chain", ch.Name, "id", p.Id, "denom", "FX", "fee", 1+r.Rng.IntN(300))})
+						}
 						bd := cctypes.NewBridgeDenom(ch.Name, ExtAddrStr(ch.Name, tokenContract(ch.Name, "USDT")))
 						return blk(Tx{K: "convert_denom", S: att, A: A("denom", "usdt", "amount", 5, "receiver", w.KeyByName(att).Bech(), "target", ch.Name)},
 							Tx{K: "increase_fee", S: att, A: A("chain", ch.Name, "id", p.Id, "denom", bd, "fee", 1+r.Rng.IntN(3))})
